@@ -7,46 +7,59 @@
 (*   Wire  - the de-framed (and inflated) body received so far, as runs of ids  *)
 (*   Frame - how the response ended according to its framing (end of execution) *)
 (*   Cache - the page copy found in the cache afterwards                        *)
+(* An event that is not a step of Out does not stop the validation: TLC prints  *)
+(*   <<"FLAG", event kind, line>>                                               *)
+(* marks the execution as broken (its remaining events are skipped up to the    *)
+(* next Reset) and goes on, so one run judges every execution of the file.  The *)
+(* check script turns every flag into a rejected execution.                     *)
 EXTENDS Out, TraceBase
 
-VARIABLES l, cfg
-tvars == <<vars, l, cfg>>
+VARIABLES l, cfg, broken
+tvars == <<vars, l, cfg, broken>>
 
 Ev == TraceLog[l]
 Is(name) == l <= NLines /\ Ev.e = name /\ l' = l + 1
 
-Stutter == UNCHANGED <<vars, cfg>>
+Stutter == UNCHANGED <<vars, cfg, broken>>
+Break(kind) == /\ PrintT(<<"FLAG", kind, l>>)
+               /\ broken' = TRUE /\ UNCHANGED <<vars, cfg>>
+(* a step that must satisfy guard g and then performs act *)
+Judge(kind, g, act) == IF broken THEN Stutter
+                       ELSE IF g THEN act /\ UNCHANGED <<cfg, broken>>
+                       ELSE Break(kind)
 
 TReset ==
     /\ Is("Reset")
     /\ cfg' = [proto |-> Ev.proto, gz |-> Ev.gz, mode |-> Ev.mode, cache |-> Ev.cache]
+    /\ broken' = FALSE
     /\ written' = 0 /\ set' = <<>> /\ started' = FALSE /\ finalized' = FALSE
     /\ hdr' = NoHdr /\ wire' = <<>> /\ frame' = NoFrame /\ drained' = FALSE /\ copied' = NoCopy
 
 TApp ==
-    /\ Is("App") /\ UNCHANGED cfg
-    /\ CASE Ev.op = "Header" -> SetHeader(<<Ev.name, Ev.value>>)
-         [] Ev.op \in {"Write", "Put"} -> (Ev.off = written /\ Ev.n >= 0 /\ Write(Ev.n))
-         [] Ev.op \in {"Finalize", "Done", "StorePage"} -> Finalize
-         [] Ev.op \in {"FullBufOn", "FullBufOff", "CacheMiss"} -> UNCHANGED vars
-         [] OTHER -> Other
+    /\ Is("App")
+    /\ CASE Ev.op = "Header" -> Judge("App", SetHeaderOK(<<Ev.name, Ev.value>>), SetHeader(<<Ev.name, Ev.value>>))
+         [] Ev.op \in {"Write", "Put"} -> Judge("App", Ev.off = written /\ Ev.n >= 0 /\ WriteOK(Ev.n), Write(Ev.n))
+         [] Ev.op \in {"Finalize", "Done", "StorePage"} -> Judge("App", TRUE, Finalize)
+         [] Ev.op \in {"FullBufOn", "FullBufOff", "CacheMiss"} -> Stutter
+         [] OTHER -> Judge("App", TRUE, Other)
 
 TSock ==
-    /\ Is("Sock") /\ Stutter
-    /\ (Has(Ev, "accepted") => (Ev.accepted >= 0 /\ Ev.accepted <= Ev.offered))
+    /\ Is("Sock")
+    /\ Judge("Sock", Has(Ev, "accepted") => (Ev.accepted >= 0 /\ Ev.accepted <= Ev.offered), UNCHANGED vars)
 
 THdr ==
-    /\ Is("Hdr") /\ UNCHANGED cfg
-    /\ Ev.count = 1 /\ Ev.lead = 0
-    /\ Deliver([count |-> 1, fields |-> Ev.fields], wire, frame)
+    /\ Is("Hdr")
+    /\ LET h == [count |-> 1, fields |-> Ev.fields]
+       IN Judge("Hdr", Ev.count = 1 /\ Ev.lead = 0 /\ DeliverOK(h, wire, frame), Deliver(h, wire, frame))
 
 TWire ==
-    /\ Is("Wire") /\ UNCHANGED cfg
-    /\ Deliver(hdr, Ev.runs, frame)
+    /\ Is("Wire")
+    /\ Judge("Wire", DeliverOK(hdr, Ev.runs, frame), Deliver(hdr, Ev.runs, frame))
 
 TEof   == Is("Eof") /\ Stutter
 TStall == Is("Stall") /\ Stutter
 THang  == Is("Hang") /\ Stutter     \* judged by the check script: never a behaviour question
+TDied  == Is("Died") /\ (IF broken THEN Stutter ELSE Break("Died"))   \* the library crashed while producing the response
 
 (* the end of the response as the peer's decoder saw it *)
 FramingOK ==
@@ -61,20 +74,19 @@ FramingOK ==
     /\ (Ev.gzip => (cfg.gz /\ cfg.mode = "normal"))
     /\ Ev.gzend
 
+EndFrame == [closed |-> TRUE, terms |-> 1]
 TFrame ==
-    /\ Is("Frame") /\ UNCHANGED cfg
-    /\ FramingOK
-    /\ DeliverOK(hdr, wire, [closed |-> TRUE, terms |-> 1])
-    /\ frame' = [closed |-> TRUE, terms |-> 1]
-    /\ drained' = TRUE
-    /\ UNCHANGED <<written, set, started, finalized, hdr, wire, copied>>
+    /\ Is("Frame")
+    /\ Judge("Frame", FramingOK /\ finalized /\ DeliverOK(hdr, wire, EndFrame),
+             /\ frame' = EndFrame /\ drained' = TRUE
+             /\ UNCHANGED <<written, set, started, finalized, hdr, wire, copied>>)
 
 TCache ==
-    /\ Is("Cache") /\ UNCHANGED cfg
-    /\ Ev.present /\ Ev.gzend
-    /\ Store([has |-> TRUE, runs |-> Ev.runs, same |-> Ev.same])
+    /\ Is("Cache")
+    /\ LET c == [has |-> TRUE, runs |-> Ev.runs, same |-> Ev.same]
+       IN Judge("Cache", Ev.present /\ Ev.gzend /\ finalized /\ StoreOK(c), Store(c))
 
-TraceInit == Init /\ l = 1 /\ cfg = [proto |-> "none", gz |-> FALSE, mode |-> "none", cache |-> FALSE]
-TraceNext == TReset \/ TApp \/ TSock \/ THdr \/ TWire \/ TEof \/ TStall \/ THang \/ TFrame \/ TCache
+TraceInit == Init /\ l = 1 /\ cfg = [proto |-> "none", gz |-> FALSE, mode |-> "none", cache |-> FALSE] /\ broken = FALSE
+TraceNext == TReset \/ TApp \/ TSock \/ THdr \/ TWire \/ TEof \/ TStall \/ THang \/ TDied \/ TFrame \/ TCache
 TraceSpec == TraceInit /\ [][TraceNext]_tvars
 =============================================================================
